@@ -374,9 +374,12 @@ def f_mask(a):
 
 def f_addeos(a):
     g = build(a["G"], a["sr"], a.get("names", "str"), a.get("pre"), a.get("late", 0))
-    out, _ = cfg_proj(add_EOS(g))
+    if a.get("eos") is not None:               # a caller-chosen end-of-sequence symbol
+        out, _ = cfg_proj(add_EOS(g, eos=unt(a["eos"])))
+    else:
+        out, _ = cfg_proj(add_EOS(g))
     return {"op": "addeos", "sr": srmodel(a["sr"]), "in": a["G"], "out": out, "sigma": a["G"]["V"],
-            "eos": EOS_NAME, "L": a["L"]}
+            "eos": a["eos"] if a.get("eos") is not None else EOS_NAME, "L": a["L"]}
 
 
 def f_normalize(a):
